@@ -90,12 +90,16 @@ func VerifC05eFormats(t, op, format, wiring int) {
 }
 
 func c05Run(t, op, where, wiring int, refOnly bool) {
-	// where: 0 none, 1 "where x > 3", 2 none but grouped by two fields (g,h), h possibly absent, 3 none but grouped by $line, 4 none but the aggregated field is assigned by "set $z = x", 5 none but the group value is a or the byte 0xAC, 6 "where $z > 3 set $z = x" (where sees the line before set: nothing is selected)
+	// where: 0 none, 1 "where x > 3", 2 none but grouped by two fields (g,h), h possibly absent, 3 none but grouped by $line, 4 none but the aggregated field is assigned by "set $z = x", 5 none but the group value is a or the byte 0xAC, 6 "where $z > 3 set $z = x" (where sees the line before set: nothing is selected), 7 "where 3 < x"
 	twoKeys := where == 2
 	byLine := where == 3 // grouped by $line: the group key is the whole line, field delimiters included
 	setZ := where == 4   // the aggregated field is $z, assigned from x by a set clause ("set $z = x")
 	acKey := where == 5  // the group value may be the byte 0xAC (the wire protocol's message delimiter)
 	whereZ := where == 6 // "where $z > 3 set $z = x": the where clause is evaluated on the line's own fields, before set
+	literalLeft := where == 7 // "where 3 < x": the same filter as "where x > 3", with the literal on the left
+	if literalLeft {
+		where = 1
+	}
 	c05NoneSelected = whereZ
 	if whereZ {
 		setZ = true
@@ -109,7 +113,9 @@ func c05Run(t, op, where, wiring int, refOnly bool) {
 		sel = ops[op] + "($z)"
 	}
 	queryStr := "select " + sel + ",count(y) from T "
-	if where == 1 {
+	if literalLeft {
+		queryStr += "where 3 < x "
+	} else if where == 1 {
 		queryStr += "where x > 3 "
 	}
 	if whereZ {
